@@ -15,6 +15,7 @@ package c34
 import (
 	"bytes"
 	"crypto/sha256"
+	"crypto/tls"
 	"encoding/hex"
 	"fmt"
 	"io"
@@ -62,6 +63,11 @@ type caseSpec struct {
 	Script    []action          `json:"script"`
 	Terminal  action            `json:"terminal"`
 	KeepAlive bool              `json:"keep_alive"`
+	// Fallback: the call is made with a TLS transport (scheme https) and
+	// EnableHTTPFallback against the plain-HTTP server, so that every TLS
+	// attempt fails in the handshake and the helper's https->http fallback
+	// request is what reaches the server.
+	Fallback bool `json:"https_to_http_fallback,omitempty"`
 }
 
 var bodyKinds = []string{"none", "bytes.Reader", "bytes.Buffer", "strings.Reader", "os.File", "seekable-custom", "nonseekable-custom"}
@@ -502,8 +508,9 @@ type worker struct {
 func newWorker(t *testing.T, tmp string) *worker {
 	w := &worker{t: t, tmp: tmp}
 	w.srv = httptest.NewServer(http.HandlerFunc(w.handle))
-	w.trKA = &http.Transport{MaxIdleConnsPerHost: 4}
-	w.trNoKA = &http.Transport{DisableKeepAlives: true}
+	// the TLS client config only matters for the https attempts of fallback cases
+	w.trKA = &http.Transport{MaxIdleConnsPerHost: 4, TLSClientConfig: &tls.Config{InsecureSkipVerify: true}}
+	w.trNoKA = &http.Transport{DisableKeepAlives: true, TLSClientConfig: &tls.Config{InsecureSkipVerify: true}}
 	return w
 }
 
@@ -641,6 +648,10 @@ func (w *worker) runCase(c caseSpec) *result {
 		base = w.trKA
 	}
 	opts := []httputil.SendOption{httputil.SendTransport(&recTransport{base: base, log: l})}
+	if c.Fallback {
+		// sets the scheme to https; the server only speaks plain HTTP
+		opts = []httputil.SendOption{httputil.SendTLSTransport(&recTransport{base: base, log: l}), httputil.EnableHTTPFallback()}
+	}
 	if len(c.Headers) > 0 || c.ID%2 == 0 {
 		opts = append(opts, httputil.SendHeaders(c.Headers))
 	}
@@ -763,32 +774,61 @@ func judge(res *result, baseURL string) (viol []violation, helperAttempts int, v
 			return nil, -1, nil
 		}
 	}
+	// In fallback cases every logical attempt of the helper is a TLS attempt
+	// (fails in the handshake against the plain server, carries nothing) followed
+	// by the http fallback request; findings of those cases get their own
+	// signature prefix.
+	pfx := ""
+	wantTLSURL := ""
+	if c.Fallback {
+		pfx = "fallback-"
+		wantTLSURL = "https://" + strings.TrimPrefix(wantURL, "http://")
+	}
+	tlsAttempts, plainAttempts := 0, 0
 	for _, a := range l.cli {
 		a.mu.Lock()
-		v := cliAttemptView{cliAttempt: a, BodyBytesRead: a.read, BodySawEOF: a.sawEOF, BodyReadErr: a.readErr, BodyMismatch: a.mismatch, BodyShared: a.shared && a.Index > 0, BodyOverlap: a.overlap, AfterStop: a.afterStop}
+		isTLS := c.Fallback && strings.HasPrefix(a.URL, "https://")
+		logical := a.Index
+		if c.Fallback {
+			logical = plainAttempts
+			if isTLS {
+				logical = tlsAttempts
+			}
+		}
+		if isTLS {
+			tlsAttempts++
+		} else {
+			plainAttempts++
+		}
+		v := cliAttemptView{cliAttempt: a, BodyBytesRead: a.read, BodySawEOF: a.sawEOF, BodyReadErr: a.readErr, BodyMismatch: a.mismatch, BodyShared: a.shared && logical > 0, BodyOverlap: a.overlap, AfterStop: a.afterStop}
 		view = append(view, v)
-		which := "first"
-		if a.Index > 0 {
-			which = "retry"
+		which := pfx + "first"
+		if logical > 0 {
+			which = pfx + "retry"
+		}
+		if isTLS {
+			which += "-tls"
 		}
 		if a.Method != c.Method {
 			add(which+"-attempt-method-differs", "attempt %d method %s want %s", a.Index, a.Method, c.Method)
 		}
-		if a.URL != wantURL {
-			add(which+"-attempt-url-differs", "attempt %d url %s want %s", a.Index, a.URL, wantURL)
+		if want := map[bool]string{true: wantTLSURL, false: wantURL}[isTLS]; a.URL != want {
+			add(which+"-attempt-url-differs", "attempt %d url %s want %s", a.Index, a.URL, want)
 		}
 		if d := headerSubset(c.Headers, a.Header); d != "" {
 			add(which+"-attempt-headers-differ", "attempt %d %s", a.Index, d)
 		}
 		// the body this attempt offers: judged only when the body itself ended
 		// (clean EOF or a read error of the body); a transfer cut short by the
-		// server says nothing about the helper.
+		// server says nothing about the helper. A TLS attempt that dies in the
+		// handshake never gets to its body.
 		switch {
+		case isTLS && a.Status == 0 && a.read == 0:
 		case n > 0 && !a.HasBody:
 			add(which+"-attempt-without-body", "attempt %d carries no body, original has %d bytes", a.Index, n)
 		case a.readErr != "":
 			add(which+"-attempt-body-unreadable", "attempt %d: reading the request body failed after %d of %d bytes: %s", a.Index, a.read, n, a.readErr)
-		case a.Index > 0 && a.read > 0 && a.mismatch && a.shared:
+		case logical > 0 && a.read > 0 && a.mismatch && a.shared:
 			// the body is the reader an earlier attempt already consumed in part: it resumes in the middle
 			add(which+"-attempt-body-incomplete", "attempt %d body resumes in the middle of the original (earlier attempts consumed the beginning); %d bytes read, eof=%v", a.Index, a.read, a.sawEOF)
 		case a.HasBody && a.sawEOF && a.read < n:
@@ -797,10 +837,10 @@ func judge(res *result, baseURL string) (viol []violation, helperAttempts int, v
 			add(which+"-attempt-body-differs", "attempt %d body bytes differ from the original", a.Index)
 		}
 		if a.afterStop {
-			add("attempt-after-backoff-stop", "attempt %d was made after the back-off returned Stop", a.Index)
+			add(pfx+"attempt-after-backoff-stop", "attempt %d was made after the back-off returned Stop", a.Index)
 		}
 		if a.Status != 0 && inSet(accepted, a.Status) && a.Index != len(l.cli)-1 {
-			add("accepted-status-retried", "attempt %d got accepted status %d and was followed by another attempt", a.Index, a.Status)
+			add(pfx+"accepted-status-retried", "attempt %d got accepted status %d and was followed by another attempt", a.Index, a.Status)
 		}
 		a.mu.Unlock()
 	}
@@ -808,13 +848,16 @@ func judge(res *result, baseURL string) (viol []violation, helperAttempts int, v
 	if c.Retry {
 		limit = c.Limit
 	}
-	if len(l.cli) > limit+1 {
-		add("more-attempts-than-backoff-allows", "%d attempts with a back-off of %d retries", len(l.cli), limit)
+	if tlsAttempts > limit+1 || plainAttempts > limit+1 {
+		add(pfx+"more-attempts-than-backoff-allows", "%d attempts (%d of them TLS attempts) with a back-off of %d retries", len(l.cli), tlsAttempts, limit)
+	}
+	if c.Fallback {
+		helperAttempts = tlsAttempts // logical attempts of the helper
 	}
 	for _, s := range l.srv {
-		which := "first"
+		which := pfx + "first"
 		if s.Index > 0 {
-			which = "retry"
+			which = pfx + "retry"
 		}
 		if s.Method != c.Method {
 			add(which+"-attempt-method-differs-on-wire", "server attempt %d method %s", s.Index, s.Method)
@@ -837,12 +880,12 @@ func judge(res *result, baseURL string) (viol []violation, helperAttempts int, v
 	}
 	if res.ok {
 		if !inSet(accepted, res.respStatus) {
-			add("success-with-unaccepted-status", "Send returned status %d, accepted %v", res.respStatus, accepted)
+			add(pfx+"success-with-unaccepted-status", "Send returned status %d, accepted %v", res.respStatus, accepted)
 		}
 		if res.respSrvIdx < 0 || res.respSrvIdx >= len(l.srv) {
-			add("success-without-server-attempt", "Send returned a response that no recorded attempt produced")
+			add(pfx+"success-without-server-attempt", "Send returned a response that no recorded attempt produced")
 		} else if s := l.srv[res.respSrvIdx]; !s.BodyRead || !s.bodyEqual {
-			add("success-reported-for-incomplete-body", "Send returned success (status %d) for server attempt %d which received %d of %d body bytes (sum %s vs %s)", res.respStatus, s.Index, s.BodyLen, n, s.BodySum, sum(l.orig))
+			add(pfx+"success-reported-for-incomplete-body", "Send returned success (status %d) for server attempt %d which received %d of %d body bytes (sum %s vs %s)", res.respStatus, s.Index, s.BodyLen, n, s.BodySum, sum(l.orig))
 		}
 	}
 	return viol, helperAttempts, view
@@ -892,10 +935,13 @@ func TestC34(t *testing.T) {
 	run.Assume("configurations where a code is both accepted and an extra retry code are contradictory and not generated")
 
 	r := run.Rand("cases")
+	rf := run.Rand("fallback")
 	n := run.N(900, 10000)
 	cases := make([]caseSpec, n)
 	for i := range cases {
 		cases[i] = genCase(r, i, run.Quick())
+		// drawn from its own stream so that the other dimensions of the case list stay what they were
+		cases[i].Fallback = rf.Intn(4) == 0
 	}
 	tmp := ev.TempDir(t, "c34-")
 	const workers = 12
@@ -962,6 +1008,12 @@ func TestC34(t *testing.T) {
 		run.Count("helper_attempts", int64(o.attempts))
 		run.Count("server_attempts", int64(o.srvAttempts))
 		run.Count("body_kind_"+c.BodyKind, 1)
+		if c.Fallback {
+			run.Count("cases_https_to_http_fallback", 1)
+			if o.attempts >= 2 && c.BodyKind != "none" && c.BodySize > 0 {
+				run.Count("fallback_cases_with_retry_and_body", 1)
+			}
+		}
 		if o.attempts >= 2 {
 			run.Count("cases_with_retry", 1)
 			if c.BodyKind != "none" && c.BodySize > 0 {
@@ -983,7 +1035,7 @@ func TestC34(t *testing.T) {
 			run.Count("cases_slower_than_5s", 1)
 			t.Logf("slow case %d: %s attempts=%d srv=%d %s", i, o.wall, o.attempts, o.srvAttempts, ev.JSON(c))
 		}
-		run.Distinct("body_kind_x_attempts", fmt.Sprintf("%s/%d", c.BodyKind, o.attempts))
+		run.Distinct("body_kind_x_attempts", fmt.Sprintf("%s/%d/fallback=%v", c.BodyKind, o.attempts, c.Fallback))
 		if run.WantSample() && i%151 == 0 {
 			run.Sample(map[string]interface{}{"case": c, "helper_attempts": o.attempts, "server_attempts": o.srvAttempts, "ok": o.ok, "err": o.errText})
 		}
